@@ -21,6 +21,29 @@ def forwardFact (s : Proof) (id : IId) (r : Nat) (p : List IId) (th : Option Seq
   | .ok s1 => setLine s1 id r p th
   | .error e => .error e
 
+/-- `cut` (`cut_method.apply`): `add_line_before(id, 1)` then `set_line(id, 'sorry', th=Thm(C, hyps))`:
+a new gap with the stated sequent before the goal. -/
+def cutM (s : Proof) (id : IId) (th : Option Seq) : Except Err Proof :=
+  match addLineBefore s id 1 with
+  | .ok s1 => setLine s1 id ruleSorry [] th
+  | .error e => .error e
+
+/-- `cases` (`cases_method.apply` → `apply_tactic(id, tactic.cases(), args=A)`): the proof term is
+`apply_theorem('classical_cases', sorry (A --> C), sorry (~A --> C))`; exported at `id` it is two gaps
+and the conclusion line citing them (rule code `r`). -/
+def casesShape (id : IId) (r : Nat) (th1 th2 concl : Option Seq) (triv1 triv2 : Bool) : List NewLine :=
+  [⟨.mk id ruleSorry [] th1 false [], triv1⟩,
+   ⟨.mk (incrId id 1) ruleSorry [] th2 false [], triv2⟩,
+   ⟨.mk (incrId id 2) r [id, incrId id 1] concl false [], false⟩]
+
+def casesM (s : Proof) (id : IId) (r : Nat) (th1 th2 concl : Option Seq) (triv1 triv2 : Bool) : Except Err Proof :=
+  applyTactic s id (casesShape id r th1 th2 concl triv1 triv2)
+
+/-- What a method that goes through `apply_tactic` advertises in `search`: the propositions of the
+gaps of the proof term (`[gap.prop for gap in pt.gaps]`), here the stated sequents of the exported
+`sorry` lines. -/
+def advertised (new : List NewLine) : List (Option Seq) := gaps new
+
 /- Number of open gaps (lines with rule `sorry`) whose stated sequent is `t`, subproofs included. -/
 mutual
 def cntItem (t : Option Seq) : Item → Nat
